@@ -15,7 +15,7 @@ func init() { register("C13", checkC13) }
 func checkC13(p *Prog, r *Result, tier string) {
 	r.Technique = "pairing/dominance rules on the AST+CFG of doCreateWorkloads, atomic-group shape of BatchCreateAndDecr in both stores, sum-of-two-sources shape of GetDeployStatus, symbolic key evaluation of the prefix queries"
 	r.Explanation = "P1 the in-progress marker is created for the keys of the same map variable, with the same key->marker derivation, as the deferred deletion iterates, and the deletion is a defer of the producer registered before the transaction; P2 on the create path AddWorkload receives the marker (constant true from the deploy loop; nil only under !decrProcessing); " +
-		"P3 in each backend AddWorkload with a marker reaches BatchCreateAndDecr, which issues the record creates and the decrement inside one transaction primitive (etcd: one ETCDTxn whose Then holds puts and the decrement, compared on the marker value; redis: one TxPipelined closure holding Decr and the SetNX's); P4 GetDeployStatus is deployed-count plus marker-count in both backends; PK both counts are read with prefix keys ending in the separator. W2 (from C14): markers are deleted before their log entries are committed."
+		"P3 in each backend AddWorkload with a marker reaches BatchCreateAndDecr, which issues the record creates and the decrement inside one transaction primitive (etcd: one ETCDTxn whose Then holds puts and the decrement, compared on the marker value; redis: one TxPipelined closure holding Decr and the SetNX's); P4 GetDeployStatus is deployed-count plus marker-count in both backends; PK both counts are read with prefix keys ending in the separator. P5 the deferred deletion runs under a context detached from the caller (utils.NewInheritCtx), so a cancelled request still cleans its markers up; W2 (from C14): markers are deleted before their log entries are committed."
 	r.NotCovered = "the counts at intermediate steps of a run; redis SETNX results being ignored (reported under C23)"
 	r.Assumptions = []string{"A4 an etcd Txn and a redis TxPipelined (MULTI/EXEC) apply their operations atomically", "A2 interface dispatch bounded by module types (mocks/fakes excluded)", "go/cfg dominance stands for execution order inside doCreateWorkloads"}
 	F := p.Fn("cluster/calcium.(*Calcium).doCreateWorkloads")
@@ -30,6 +30,7 @@ func checkC13(p *Prog, r *Result, tier string) {
 	r.min("P3", 4)
 	r.min("P4", 2)
 	r.min("PK", 4)
+	r.min("P5", 1)
 	checkP1(p, r, F)
 	// P2
 	{
@@ -227,6 +228,17 @@ func checkP1(p *Prog, r *Result, F *FuncNode) {
 			return
 		}
 		r.ok("P1", key, p.pos(c.call), fmt.Sprintf("created and deleted over %s with %s; deletion deferred in the producer", exprStr(c.rng.X), c.deriv))
+		// P5: the deferred deletion must not depend on the caller's context still being alive
+		det, known := ctxOriginDetached(p, d.fn, d.call.Args[0])
+		k5 := F.Name + " / the deferred marker deletion runs under a context detached from the caller's cancellation"
+		switch {
+		case !known:
+			r.undecided("P5", k5, p.pos(d.call), "the context passed to DeleteProcessing is not a single-definition local")
+		case det:
+			r.ok("P5", k5, p.pos(d.call), "context derives from utils.NewInheritCtx")
+		default:
+			r.bad("P5", k5, p.pos(d.call), "DeleteProcessing runs under the request's context: when the caller has gone away (cancel, deadline) by the time the deployment ends, every deletion fails, the error is only logged, and the markers stay although the deployment has returned")
+		}
 		return
 	}
 	r.bad("P1", key, p.pos(c.call), "no DeleteProcessing ranges over the planned nodes")
